@@ -2,7 +2,7 @@
 # confirm_seed.sh Cxx mY : confirm a seeded defect against /repo HEAD in a scratch worktree; writes /tmp/confirm/Cxx_mY.json
 id=$1; m=$2; src=/tmp/seed_out/$id/$m; wt=/tmp/confirm/wt_${id}_$m; out=/tmp/confirm/${id}_$m.json
 mkdir -p /tmp/confirm; rm -rf $wt; git -C /repo worktree add --detach $wt HEAD -q 2>/dev/null || { echo "{\"id\":\"$id\",\"m\":\"$m\",\"error\":\"worktree\"}" > $out; exit 0; }
-patch=$src/patch.diff; [ -f $src/patch_rebased.diff ] && patch=$src/patch_rebased.diff
+patch=$src/patch.diff; [ -f $src/patch_rebased.diff ] && patch=$src/patch_rebased.diff; [ -f $src/patch_head.diff ] && patch=$src/patch_head.diff
 demo=$src/demo.py; runner="/venv/bin/python"; [ -f $src/demo.sh ] && { demo=$src/demo.sh; runner="bash"; }
 export PYTHONHASHSEED=0
 timeout 900 $runner $demo $wt > /tmp/confirm/${id}_${m}_clean.log 2>&1; rc_clean=$?
